@@ -1312,6 +1312,8 @@ class LiteralValue:
 
     def __init__(self, value):
         self.value = value
+        # Like Type.__init__: attributes added to one literal must not land in the class-level dictionary
+        self.fields = self.fields.copy()
 
     def promote(self):
         return self.parents[0]
